@@ -94,7 +94,12 @@ Create(c) ==
   /\ ev' = [e |-> "create", c |-> c, t |-> now, res |-> "created", ns |-> 0]
   /\ UNCHANGED <<cfg, now, firstPoll, wakeAt, fx, lg, ct, adm, wnd, ngate, lastAct>>
 
-EvAdmit(c) == [e |-> "poll", c |-> c, t |-> now, res |-> "ok", ns |-> 1, nd |-> 1, si |-> ngate + 1, val |-> ngate + 1, rq |-> c]
+\* cfg.slow = 1: the inner call stays pending until the environment resolves it (ok / error / panic) or the
+\* caller is cancelled; none of that gives a permit back: st "running", then "res_<outcome>", then "done"
+Slow == "slow" \in DOMAIN cfg /\ cfg.slow = 1
+EvAdmit(c) == IF Slow THEN [e |-> "poll", c |-> c, t |-> now, res |-> "pending", ns |-> 1, nd |-> 0, si |-> ngate + 1]
+              ELSE [e |-> "poll", c |-> c, t |-> now, res |-> "ok", ns |-> 1, nd |-> 1, si |-> ngate + 1, val |-> ngate + 1, rq |-> c]
+Admitted(c) == IF Slow THEN "running" ELSE "done"
 EvPend(c)  == [e |-> "poll", c |-> c, t |-> now, res |-> "pending", ns |-> 0]
 EvRej(c)   == [e |-> "poll", c |-> c, t |-> now, res |-> "err", kind |-> "limited", ns |-> 0]
 
@@ -105,7 +110,7 @@ PollFirst15(c) ==
   /\ \E r \in Try :
        /\ fx' = r[3] /\ lg' = r[4] /\ ct' = r[5]
        /\ \/ /\ r[1] = "permit"                      \* spare capacity: admitted at once
-             /\ st' = [st EXCEPT ![c] = "done"] /\ ngate' = ngate + 1 /\ ev' = EvAdmit(c)
+             /\ st' = [st EXCEPT ![c] = Admitted(c)] /\ ngate' = ngate + 1 /\ ev' = EvAdmit(c)
              /\ Observe /\ UNCHANGED wakeAt
           \/ /\ r[1] = "wait" /\ cfg.T > 0            \* told to come back in r[2] <= T
              /\ st' = [st EXCEPT ![c] = "sleeping"] /\ wakeAt' = [wakeAt EXCEPT ![c] = now + r[2]]
@@ -122,7 +127,7 @@ PollWake15(c) ==
   /\ \E r \in Try :
        /\ fx' = r[3] /\ lg' = r[4] /\ ct' = r[5]
        /\ \/ /\ r[1] = "permit"
-             /\ st' = [st EXCEPT ![c] = "done"] /\ ngate' = ngate + 1 /\ ev' = EvAdmit(c) /\ Observe
+             /\ st' = [st EXCEPT ![c] = Admitted(c)] /\ ngate' = ngate + 1 /\ ev' = EvAdmit(c) /\ Observe
           \/ /\ r[1] # "permit"
              /\ st' = [st EXCEPT ![c] = "done"] /\ ev' = EvRej(c) /\ NoObserve /\ UNCHANGED ngate
   /\ UNCHANGED <<cfg, now, firstPoll, wakeAt>>
@@ -130,23 +135,35 @@ PollWake15(c) ==
 \* ---- profile C02 alone: any decision, only the admissions are observed
 PollAny02(c) ==
   /\ st[c] \in {"created", "sleeping"}
-  /\ \/ (st' = [st EXCEPT ![c] = "done"] /\ ngate' = ngate + 1 /\ ev' = [e |-> "poll", c |-> c, t |-> now, ns |-> 1] /\ Observe)
+  /\ \/ (st' = [st EXCEPT ![c] = Admitted(c)] /\ ngate' = ngate + 1 /\ ev' = [e |-> "poll", c |-> c, t |-> now, ns |-> 1] /\ Observe)
      \/ (st' = [st EXCEPT ![c] = "sleeping"] /\ ev' = [e |-> "poll", c |-> c, t |-> now, res |-> "pending"] /\ NoObserve /\ UNCHANGED ngate)
      \/ (st' = [st EXCEPT ![c] = "done"] /\ ev' = [e |-> "poll", c |-> c, t |-> now, res |-> "err", ns |-> 0] /\ NoObserve /\ UNCHANGED ngate)
   /\ UNCHANGED <<cfg, now, firstPoll, wakeAt, fx, lg, ct, lastAct>>
 
-\* spurious poll of a sleeper before its timer
+\* slow inner service: resolution by the environment, the poll that passes the outcome on
+Complete(c, o) ==
+  /\ st[c] = "running" /\ st' = [st EXCEPT ![c] = "res_" \o o]
+  /\ ev' = [e |-> "complete", c |-> c, out |-> o, t |-> now]
+  /\ UNCHANGED <<cfg, now, firstPoll, wakeAt, fx, lg, ct, adm, wnd, ngate, lastAct>>
+PollResult(c) ==
+  /\ st[c] \in {"res_ok", "res_e1", "res_panic"} /\ st' = [st EXCEPT ![c] = "done"]
+  /\ ev' = (IF st[c] = "res_ok" THEN [res |-> "ok", rq |-> c] ELSE IF st[c] = "res_e1" THEN [res |-> "err", kind |-> "inner1"] ELSE [res |-> "panic"])
+           @@ [e |-> "poll", c |-> c, t |-> now, ns |-> 0, nd |-> 1]
+  /\ UNCHANGED <<cfg, now, firstPoll, wakeAt, fx, lg, ct, adm, wnd, ngate, lastAct>>
+\* spurious poll of a sleeper before its timer, or of a caller whose inner call is still pending
 PollStutter(c) ==
-  /\ st[c] = "sleeping"
+  /\ st[c] \in {"sleeping", "running"}
   /\ ev' = EvPend(c)
   /\ UNCHANGED <<cfg, now, st, firstPoll, wakeAt, fx, lg, ct, adm, wnd, ngate, lastAct>>
 
 PollAny(c) ==
-  IF Enforce["C15"] THEN (PollFirst15(c) \/ PollWake15(c) \/ PollStutter(c)) ELSE PollAny02(c)
+  \/ PollResult(c)
+  \/ (st[c] = "running" /\ PollStutter(c))
+  \/ (st[c] # "running" /\ IF Enforce["C15"] THEN (PollFirst15(c) \/ PollWake15(c) \/ PollStutter(c)) ELSE PollAny02(c))
 
 \* cancellation while waiting leaves the limiter as if the caller had never existed
 Drop(c) ==
-  /\ st[c] \in {"created", "sleeping"}
+  /\ st[c] \in {"created", "sleeping", "running", "res_ok", "res_e1", "res_panic"}
   /\ st' = [st EXCEPT ![c] = "done"]
   /\ ev' = [e |-> "drop", c |-> c, t |-> now, ns |-> 0]
   /\ UNCHANGED <<cfg, now, firstPoll, wakeAt, fx, lg, ct, adm, wnd, ngate, lastAct>>
